@@ -1,5 +1,5 @@
 from .. import facts
-from ..rules import factors, status, image, algebra, opacity, codec, geometry
+from ..rules import factors, status, image, algebra, opacity, codec, geometry, sampling
 
 
 def run(ck):
@@ -17,4 +17,5 @@ def run(ck):
     codec.r12_simd_helpers(ck, P, 'C09-R8')                     # the widening helpers the fetchers delegate to
     opacity.r9_solid_substitution_excludes_kernels(ck, P)
     geometry.r14_hull_needs_constant_sign_of_w(ck, P, 'C09-R10')   # COVER_CLIP promotes an alpha-less source to opaque
+    sampling.r20_cover_from_corners_needs_affine(ck, P)
     codec.r17_converted_pixels_get_the_alpha_mask(ck, P, 'C09-R11')
